@@ -813,6 +813,17 @@ def main(tier: str, seed: int) -> int:
         n_scen += 1
         traces += _restrict_node_set_traces(cfg, trs, notes)
         chk.add_case({"scenario": label})
+        if game is not None and "#episode" not in label and (thorough or _n_nodes(cfg) <= 15):
+            # the same file with its node list and its link list written in the opposite order: the same network is declared
+            rcfg = copy.deepcopy(cfg)
+            net_ = rcfg["simulation"]["network"]
+            if isinstance(net_.get("links"), list) and isinstance(net_.get("nodes"), list) and len(net_["links"]) > 1:
+                net_["links"].reverse()
+                net_["nodes"].reverse()
+                rtrs, _g = inventory_traces(label + "#lists_reversed", rcfg, "shipped")
+                traces += _restrict_node_set_traces(rcfg, rtrs, notes)
+                chk.add_case({"scenario": label + "#lists_reversed"})
+                notes["scenarios_also_loaded_with_node_and_link_lists_reversed"] = notes.get("scenarios_also_loaded_with_node_and_link_lists_reversed", 0) + 1
         if game is not None and ((cfg.get("simulation") or {}).get("defaults")):
             notes["scenarios_with_a_defaults_block_inside_simulation"] = notes.get("scenarios_with_a_defaults_block_inside_simulation", 0) + 1
         small = _n_nodes(cfg) <= 15
